@@ -15,6 +15,7 @@ CONSTANTS
   DupWrite = TRUE
   WriterGuard = TRUE
   Defensive = FALSE
+  EnvOn = TRUE
 SPECIFICATION Spec
 INVARIANTS TypeOK AtMostOneReply ExactlyOneWhenFinished OneLeaderPerGeneration FollowersNeverDone
   TimedOutGenerationIsTombstone FailureIsPrivate InternalSkipsJoin RegroupBound Quiescent 
